@@ -91,7 +91,9 @@ def cases(seed, tier):
                 sl = case["suspenders"][f"s{i}"]["kwargs"].get("sleep", 0)
                 if rng.random() < (0.4 if sl else 0.1):
                     # the signal flaps: bad again during (or right after) the settle time of the first release
-                    inj[-1]["args"]["then"] = [[rng.choice([0.0, 0.1, 0.3 * sl, 0.9 * sl, 1.5 * sl]) if sl else rng.choice([0.0, 0.1]), 1], [rng.choice([0.0, 0.2, 1.0, 3.0]), 0]]
+                    # (never at the very instant of the previous change: one device thread delivers its updates one
+                    # after the other, each callback returning before the next update is looked at)
+                    inj[-1]["args"]["then"] = [[rng.choice([0.05, 0.1, 0.3 * sl, 0.9 * sl, 1.5 * sl]) if sl else rng.choice([0.05, 0.1]), 1], [rng.choice([0.05, 0.2, 1.0, 3.0]), 0]]
         inj.sort(key=lambda x: x["at"]["step"])
         c["script"][ci]["inject"] = inj
         # a Pausable device that refuses to be replayed (pause() raises NoReplayAllowed): the engine then must not
@@ -128,6 +130,12 @@ def check(res):
                 val = bool(e.d["value"])
                 if val != (tr[-1][1] if tr else False):
                     tr.append((e, val))
+        reqs = {}
+        for e in evs:
+            if e.kind == "sus_request":
+                sg = next((s_ for s_ in sleeps if f"Signal {s_} " in str(e.d.get("justification"))), None)
+                reqs.setdefault(sg, []).append(e)
+        used_reqs, req_of = set(), {}
         # walk the message trace with a helper stack
         helpers = []  # {"sig":..., "start":Ev, "phase": pre|post, "wait_for": Ev|None}
         in_effect = []  # [(sig, start_ev, until_time)]
@@ -147,7 +155,18 @@ def check(res):
                 just = e.d["args"][2] if len(e.d["args"]) > 2 else ""
                 sig = next((s for s in sleeps if isinstance(just, str) and f"Signal {s} " in just), None)
                 tr = trans.get(sig, [])
-                ks = [i for i, (x, val) in enumerate(tr) if val and x.seq < e.seq]
+                # the trip this suspension belongs to: the one whose request_suspend it answers (requests and
+                # suspensions of one suspender pair up in order), not simply the latest one before it
+                req = None
+                if e.d["mid"] in req_of:
+                    req = req_of[e.d["mid"]]
+                else:
+                    req = next((r for r in reqs.get(sig, []) if r.seq < e.seq and r.seq not in used_reqs), None)
+                    if req is not None:
+                        used_reqs.add(req.seq)
+                        req_of[e.d["mid"]] = req
+                bound = req.seq if req is not None else e.seq
+                ks = [i for i, (x, val) in enumerate(tr) if val and x.seq <= bound]
                 if sig is None or not ks or ks[-1] + 1 >= len(tr):
                     helpers.append({"sig": sig, "start": e, "phase": "pre", "until": None})
                     continue
